@@ -183,30 +183,42 @@ IsFuncKind(k) == k \in {"function", "predicate"}
 IsLogicKind(k) == k \in {"axiom", "theorem", "predicate"}
 RECURSIVE StructDomain(_)
 StructDomain(e) == e.id \in {"INTSET", "GLOBAL", "BOOLEAN", "DECART", "ENUM"} /\ \A i \in 1..Len(e.ch) : StructDomain(e.ch[i])
-Unknown == [ok |-> FALSE, type |-> Bad("unchecked"), args |-> <<>>]
-\* ctx : alias -> [ok, type, args] of the constituents analysed so far
-CheckCst(rec, ctx) ==
+Unknown == [ok |-> FALSE, type |-> Bad("unchecked"), args |-> <<>>, vc |-> "invalid"]
+\* ctx : alias -> [ok, type, args, vc, def] of the constituents analysed so far (def: the definition, for the value audit of calls)
+FuncBodyOf(d) == [args |-> [i \in 1..Len(d.ch[1].ch) |-> d.ch[1].ch[i].ch[1].s], body |-> d.ch[2]]
+\* whole : the same for every analysed constituent (the value audit of a call with property arguments looks into the callee's body,
+\*         which may mention constituents the caller does not)
+CheckCstW(rec, ctx, whole) ==
   LET G == [a \in {x \in DOMAIN ctx : ctx[x].ok} |-> ctx[a].type]
       F == [a \in {x \in DOMAIN ctx : ctx[x].ok /\ ctx[x].args # <<>>} |-> [args |-> ctx[a].args]]
+      GC == [a \in {x \in DOMAIN whole : whole[x].ok} |-> whole[a].vc]
+      FB == [a \in {x \in DOMAIN whole : whole[x].ok /\ whole[x].def # NoDef /\ whole[x].def.id = "FUNCDEF"} |-> FuncBodyOf(whole[a].def)]
+      VC(d) == VClass(d, GC, FB, {})
   IN
   IF rec.kind \in {"base", "constant"} THEN
-       IF rec.def = NoDef THEN [ok |-> TRUE, type |-> TBool(TBase(rec.alias)), args |-> <<>>] ELSE Unknown
+       IF rec.def = NoDef THEN [ok |-> TRUE, type |-> TBool(TBase(rec.alias)), args |-> <<>>, vc |-> "value"] ELSE Unknown
   ELSE IF rec.def = NoDef THEN Unknown
   ELSE IF rec.kind = "structured" THEN
        LET t == TypeOf(rec.def, G, F, [x \in {} |-> TAny], TRUE) IN
-       IF ~StructDomain(rec.def) \/ IsBad(t) \/ t.k # "bool" THEN Unknown ELSE [ok |-> TRUE, type |-> t.c[1], args |-> <<>>]
+       IF ~StructDomain(rec.def) \/ IsBad(t) \/ t.k # "bool" THEN Unknown
+       ELSE [ok |-> TRUE, type |-> t.c[1], args |-> <<>>, vc |-> IF VC(rec.def) # "invalid" THEN "value" ELSE "invalid"]
   ELSE LET t == TypeOf(rec.def, G, F, [x \in {} |-> TAny], FALSE)
            isFn == rec.def.id = "FUNCDEF" IN
        IF IsBad(t) \/ (IsFuncKind(rec.kind) # isFn) \/ (IsLogicKind(rec.kind) # (t.k = "logic")) THEN Unknown
-       ELSE [ok |-> TRUE, type |-> t, args |-> ArgsOf(rec.def, G, F)]
+       ELSE [ok |-> TRUE, type |-> t, args |-> ArgsOf(rec.def, G, F), vc |-> VC(rec.def)]
 
+CheckCst(rec, ctx) == CheckCstW(rec, ctx, ctx)
 RECURSIVE AnalyseRounds(_, _, _)
 AnalyseRounds(c, ctx, k) ==
   IF k = 0 THEN ctx
   ELSE LET next == [a \in {c[u].alias : u \in DOMAIN c} |->
                       LET u == CHOOSE x \in DOMAIN c : c[x].alias = a
-                          visible == [b \in {x \in DOMAIN ctx : ctx[x].ok /\ x \in DefMentions(c[u]) /\ x # a} |-> ctx[b]]
-                      IN CheckCst(c[u], visible)]
+                          visible == [b \in {x \in DOMAIN ctx : ctx[x].ok /\ x \in DefMentions(c[u]) /\ x # a} |->
+                                        [ok |-> ctx[b].ok, type |-> ctx[b].type, args |-> ctx[b].args, vc |-> ctx[b].vc,
+                                         def |-> c[CHOOSE y \in DOMAIN c : c[y].alias = b].def]]
+                          whole == [b \in {x \in DOMAIN ctx : ctx[x].ok /\ x # a} |->
+                                      [ok |-> TRUE, vc |-> ctx[b].vc, def |-> c[CHOOSE y \in DOMAIN c : c[y].alias = b].def]]
+                      IN CheckCstW(c[u], visible, whole)]
        IN IF next = ctx THEN ctx ELSE AnalyseRounds(c, next, k - 1)
 Analysis(c) == AnalyseRounds(c, [a \in {c[u].alias : u \in DOMAIN c} |-> Unknown], Cardinality(DOMAIN c) + 1)
 
